@@ -661,8 +661,7 @@ func (r *run) fnTerm(f *ssa.Function) string {
 	name := "fn_" + mangle(FuncDisplayName(f))
 	if !r.usedCtr["fn:"+name] {
 		r.usedCtr["fn:"+name] = true
-		r.emit(fmt.Sprintf("(declare-const %s Int)", name))
-		r.assume("true", fmt.Sprintf("(< 0 %s)", name))
+		r.emit(fmt.Sprintf("(define-fun %s () Int %d)", name, 1000000+r.eng.FuncIndex(f)))
 	}
 	return name
 }
